@@ -353,6 +353,23 @@ def stage(out, tier, only=None):
                  random_schedules(r, 60 if tier == "quick" else 2000))
     t1 = time.time()
     traces, cap = run_harness(binary, cases)
+    # "stuck" = the harness saw no quiescence within its timeout: on a loaded machine a shell that is slow to reach its gate looks
+    # like that, and the cases after it in the same harness process start from a dirty state.  Such a case, and every case of
+    # its process after it, is run again ONE AT A TIME in a fresh process (twice if need be); what is still stuck then counts.
+    retried = 0
+    for attempt in range(2):
+        jobs = 4 if len(cases) >= 16 else 1
+        first = {}
+        for i, tr in enumerate(traces):
+            if "error" not in tr and str(tr.get("verdict", "")).startswith("stuck"):
+                first.setdefault(i % jobs, i)
+        again = sorted(i for c, i0 in first.items() for i in range(i0, len(cases), jobs))
+        if not again:
+            break
+        retried += len(again)
+        for i in again:
+            tr2, _ = run_harness(binary, [cases[i]])
+            traces[i] = tr2[0]
     t_impl = time.time() - t1
     t1 = time.time()
     ok_idx = [i for i, tr in enumerate(traces) if "error" not in tr]
@@ -426,7 +443,7 @@ def stage(out, tier, only=None):
         "blobs m..n-1 lost (n<=2): every interleaving of k<=3 starts, the m releases and one go of the re-run; with the lookups of the "
         "dependency's target result failing (n<=2): every interleaving of k<=3 starts and one go of the re-run" % (MAXK, MAXN),
         "oracle_failures": len(bad_oracle), "model_mismatches": len(bad_model), "model_schedule_dependent": nondet,
-        "restore_pool_size": cap, **stats,
+        "restore_pool_size": cap, "stuck_cases_run_again_alone": retried, **stats,
         "seconds": {"harness_build": round(t_build, 1), "implementation": round(t_impl, 1), "coqc": round(t_model, 1)},
         "rule": "per window: held blob reads, reads that arrived, runs of the dependency's command at their gate and started so far, commands "
                 "run and what each saw, at the end the bytes cached by a re-run, equal to DepLoad.replay (VCorrect) under both settle orders; "
